@@ -48,6 +48,10 @@ func (glyph *SimpleGlyph) Decode() (*GlyphInfo, error) {
 	buf := glyph.Encoded
 
 	numContours := int(glyph.NumContours)
+	if numContours == 0 && len(buf) < 2 {
+		// a glyph with zero contours needs no data beyond the glyph header
+		return &GlyphInfo{}, nil
+	}
 	if len(buf) < 2*numContours+2 {
 		return nil, errInvalidGlyphData
 	}
@@ -176,6 +180,11 @@ func (glyph *SimpleGlyph) removePadding() error {
 	buf := glyph.Encoded
 
 	numContours := int(glyph.NumContours)
+	if numContours == 0 && len(buf) < 2 {
+		// a glyph with zero contours needs no data beyond the glyph header
+		glyph.Encoded = nil
+		return nil
+	}
 	if len(buf) < 2*numContours+2 {
 		return errInvalidGlyphData
 	}
